@@ -3,14 +3,19 @@
   Executes the same definitions the theorems are about (Model/*), compiled as a `lean_exe`.
 -/
 import YowsupVerif.Drv.Segments
+import YowsupVerif.Drv.Coder
+import YowsupVerif.Drv.Stack
 open Yow Yow.Drv
 
 structure DrvState where
   seg : Segments.St := { enabled := true, buf := [] }
+  stack : StackSt := {}
 
 def step (s : DrvState) (line : String) : DrvState × String :=
   match (line.splitOn " ").filter (· ≠ "") with
   | "seg" :: rest => let r := segStep s.seg rest; ({ s with seg := r.1 }, r.2)
+  | "coder" :: rest => (s, coderStep rest)
+  | "stack" :: rest => let r := stackStep s.stack rest; ({ s with stack := r.1 }, r.2)
   | _ => (s, "bad-op")
 
 partial def loop (hin hout : IO.FS.Stream) (s : DrvState) : IO Unit := do
